@@ -60,6 +60,9 @@ def gen_cases(rng, tier: str) -> list[dict]:
             tw = H.int_float_twins(rng)
             if tw:
                 cases.append({"origin": "int-float-twins", "pool": H.pool_to_wire(tw[0]), "ops": tw[1]})
+        if h % 8 == 5:
+            pool8, ops8 = H.long_lived(rng, 260 if tier == "quick" else 2200)
+            cases.append({"origin": "long-lived", "pool": H.pool_to_wire(pool8), "ops": ops8})
         if h % 4 == 1:
             pool7 = H.float_pool(H.nested_pool(rng))
             for ops in H.sharing_prefixes(rng, pool7):
